@@ -601,6 +601,67 @@ theorem master_version_sound (p : MasterPlaylist) : rfcMin p.writeLines ≤ p.re
       intro l hl; simp [(hline l hl).2]
     simp [this]; exact hone
 
+/-- a session key built with a derived IV (text cannot express one) counts for version 2 without an IV being written -/
+def masterSlack (p : MasterPlaylist) : Nat :=
+  if p.session_keys.any (fun d => match d.iv with
+      | .number _ => true
+      | _ => false) then 2 else 1
+
+theorem sessionKey_rv_le (k : DecryptionKey) :
+    k.requiredVersion ≤ max (keyLineMin k) (match k.iv with
+      | .number _ => 2
+      | _ => 1) := by
+  obtain ⟨m, u, iv, f, v⟩ := k
+  cases f <;> cases v <;> cases iv <;>
+    simp_all [keyLineMin, DecryptionKey.requiredVersion, versionsWritten, ivWritten, InitializationVector.isSome]
+
+/-- **master playlists: not inflated.** The emitted version is at most the RFC minimum of the written lines
+(outside the one conservative case: a session key carrying a derived IV, which only a builder can make) -/
+theorem master_version_not_inflated (p : MasterPlaylist) : p.requiredVersion ≤ max (rfcMin p.writeLines) (masterSlack p) := by
+  have hmin : ∀ l ∈ p.writeLines, lineMin l ≤ rfcMin p.writeLines := by
+    intro l hl
+    unfold rfcMin
+    exact Nat.le_trans (mem_le_maxVersion _ _ (List.mem_map.mpr ⟨l, hl, rfl⟩)) (Nat.le_max_left _ _)
+  have hmedia : ∀ m ∈ p.media, Line.media m ∈ p.writeLines := by
+    intro m hm; unfold MasterPlaylist.writeLines; simp [hm]
+  have hkey : ∀ k ∈ p.session_keys, Line.sessionKey k ∈ p.writeLines := by
+    intro k hk; unfold MasterPlaylist.writeLines; simp [hk]
+  have hone : 1 ≤ max (rfcMin p.writeLines) (masterSlack p) := by
+    have : 1 ≤ masterSlack p := by unfold masterSlack; split <;> omega
+    omega
+  unfold MasterPlaylist.requiredVersion
+  apply maxVersion_le _ _ hone
+  intro x hx
+  simp only [List.mem_cons, List.mem_nil_iff, or_false] at hx
+  rcases hx with rfl | rfl | rfl | rfl | rfl | rfl
+  any_goals exact hone
+  · apply maxVersion_le _ _ hone
+    intro y hy
+    obtain ⟨m, hm, rfl⟩ := List.mem_map.mp hy
+    have := hmin _ (hmedia m hm)
+    have e : lineMin (Line.media m) = m.requiredVersion := rfl
+    rw [e] at this
+    omega
+  · apply maxVersion_le _ _ hone
+    intro y hy
+    obtain ⟨k, hk, rfl⟩ := List.mem_map.mp hy
+    have h1 := hmin _ (hkey k hk)
+    simp only [lineMin] at h1
+    have h2 := sessionKey_rv_le k
+    have h3 : (match k.iv with
+        | .number _ => 2
+        | _ => 1) ≤ masterSlack p := by
+      unfold masterSlack
+      cases hiv : k.iv with
+      | number n =>
+        have : p.session_keys.any (fun d => match d.iv with
+            | .number _ => true
+            | _ => false) = true := List.any_eq_true.mpr ⟨k, hk, by simp [hiv]⟩
+        simp [this]
+      | aes128 v => simp only; split <;> omega
+      | missing => simp only; split <;> omega
+    omega
+
 /-! ## non-vacuity -/
 example :
     let seg : MediaSegment := ⟨0, false, [some ⟨.aes128, ['k'], .number 0, none, none⟩], none, some ⟨some 0, 10⟩, none, false, none, ⟨1500000000, none⟩, ['u']⟩
